@@ -300,7 +300,7 @@ TERMS = [
     ("mt:trim-thread-cache", "stream_decode_mt", "stream_decoder_mt.c", "cond", ("mem_max", "thr"),
      [("lzma_outq", "mem_in_use")],
      "cached Block decoders are freed when in-use + cached + output buffers in use exceed the head-room"),
-    ("mt:memusage-report", "stream_decoder_mt_memconfig", "stream_decoder_mt.c", "store:memusage", (),
+    ("mt:memusage-report", "stream_decoder_mt_memconfig", "stream_decoder_mt.c", "store:memusage", ("mem_in_use",),
      [("lzma_stream_coder@stream_decoder_mt.c", "mem_direct_mode"), ("lzma_stream_coder@stream_decoder_mt.c", "mem_in_use"),
       ("lzma_stream_coder@stream_decoder_mt.c", "mem_cached"), ("lzma_outq", "mem_allocated")],
      "the reported usage is the sum of all four accounting counters"),
@@ -489,6 +489,163 @@ def guard_nodes(f, n):
     yield from rec(n, 0)
 
 
+def check_clamp(ck, prog):
+    """An init function that establishes an order between two members with the clamp idiom
+    `if (coder->A > coder->B) coder->A = coder->B;` states the invariant A <= B (memlimit_threading <= memlimit_stop:
+    "if memlimit_threading is greater than memlimit_stop, memlimit_stop is used for both").  Every other store to B or A
+    has to re-establish it: on every path from the store to the function's return the two members are compared again
+    (or the other one is stored).  Otherwise lzma_memlimit_set() can lower the hard limit below the soft limit that the
+    admission tests use, and the decoder allocates several times the hard limit without LZMA_MEMLIMIT_ERROR."""
+    ck.rule("C09-CLAMP", "an order between two limit members established by a clamp in the init function is re-established "
+                         "wherever one of them is stored again")
+    n = 0
+    for f in sorted(prog.all_functions("liblzma"), key=lambda f: (f.file, f.line)):
+        if not f.blocks:
+            continue
+        for b in f.blocks.values():
+            if not (b.term and "cond" in b.term and len(b.succs) == 2):
+                continue
+            c = ex.strip(b.term["cond"])
+            if c.get("k") != "bin" or c["op"] not in (">", "<", ">=", "<="):
+                continue
+            l, r = ex.strip(c["l"]), ex.strip(c["r"])
+            if l is None or r is None or l.get("k") != "mem" or r.get("k") != "mem":
+                continue
+            tb = f.blocks.get(b.succs[0])
+            clamp = None
+            for e in (tb.elems if tb else ()):
+                if e is None:
+                    continue
+                for (ll, rr, op, nd) in ex.writes(e):
+                    if op == "=" and rr is not None and ((ex.same(ll, l) and ex.same(rr, r)) or (ex.same(ll, r) and ex.same(rr, l))):
+                        clamp = nd
+            if clamp is None:
+                continue
+            A, Bm = ex.field_key(l), ex.field_key(r)
+            base = f.file.rsplit("/", 1)[-1]
+            for g in prog.fns_in(base):
+                if g is f or not g.blocks:
+                    continue
+                gdom = cfg.dominators(g)
+                for bb, ii, ee in g.iter_elems():
+                    for (ll, rr, op, nd) in ex.writes(ee):
+                        fk = ex.field_key(ll)
+                        if fk not in (A, Bm):
+                            continue
+                        other = Bm if fk == A else A
+                        # a store that is itself the clamp (`A = B` behind a comparison of A and B) establishes the order
+                        if rr is not None and ex.field_key(rr) == other and any(
+                                g.blocks[d].term and "cond" in g.blocks[d].term and
+                                {A, Bm} <= {ex.field_key(x) for x in ex.walk(g.blocks[d].term["cond"]) if x.get("k") == "mem"}
+                                for d in gdom.get(bb.id, ()) if d != bb.id):
+                            continue
+                        n += 1
+                        ck.saw_function(g)
+
+                        def via(b2, i2, e2, bb=bb, ii=ii):
+                            if b2.id == bb.id and i2 <= ii:
+                                return False
+                            if any(ex.field_key(l2) == other for (l2, r2, o2, n2) in ex.writes(e2)):
+                                return True
+                            return False
+                        cmpb = set()
+                        for tb2 in g.blocks.values():
+                            if tb2.term and "cond" in tb2.term:
+                                ks = {ex.field_key(x) for x in ex.walk(tb2.term["cond"]) if x.get("k") == "mem"}
+                                if A in ks and Bm in ks:
+                                    cmpb.add(tb2.id)
+                        ok = any(via(bb, j, bb.elems[j]) for j in range(ii + 1, len(bb.elems)) if bb.elems[j] is not None)
+                        if not ok:
+                            # every path store -> exit passes a comparison of the two members or a store to the other one
+                            seen, st, open_ = set(), [y for y in bb.succs if y is not None], False
+                            viab = {b2.id for b2, i2, e2 in g.iter_elems() if via(b2, i2, e2)} | cmpb
+                            if bb.id in cmpb:
+                                st = []
+                            while st:
+                                x = st.pop()
+                                if x in seen or x in viab:
+                                    continue
+                                seen.add(x)
+                                if x == g.exit:
+                                    open_ = True
+                                    break
+                                st.extend(y for y in g.blocks[x].succs if y is not None)
+                            ok = not open_
+                        ck.ob("C09-CLAMP", "%s:%s" % (g.name, fk[1]), ok, common.where(g, nd),
+                              "%s: after `%s` the order %s is re-established" % (g.name, ex.show(nd)[:50], ex.show(c)) if ok else
+                              "%s(): `%s` (line %s) can change the order that %s() establishes with `if (%s) %s`: afterwards %s "
+                              "may be greater than %s, e.g. lzma_memlimit_set() lowers the hard limit below the threading limit "
+                              "that admission of new Blocks is tested against, and the decoder uses several times the hard "
+                              "limit without LZMA_MEMLIMIT_ERROR" % (
+                                  g.name, ex.show(nd)[:60], ex.line(nd), f.name, ex.show(c), ex.show(clamp), ex.show(l), ex.show(r)),
+                              key="CLAMP:%s:%s" % (g.name, fk[1]))
+    if n < 1:
+        raise AnalysisBroken("C09-CLAMP: no clamp idiom with a second store found (memlimit_threading/memlimit_stop expected)")
+
+
+NEEDED = [
+    # (coding function, file, memconfig function)
+    ("stream_decode", "stream_decoder.c", "stream_decoder_memconfig"),
+    ("stream_decode_mt", "stream_decoder_mt.c", "stream_decoder_mt_memconfig"),
+    ("alone_decode", "alone_decoder.c", "alone_decoder_memconfig"),
+    ("lzip_decode", "lzip_decoder.c", "lzip_decoder_memconfig"),
+]
+
+
+def check_needed(ck, prog):
+    """"LZMA_MEMLIMIT_ERROR ... the minimum required memlimit value can be gotten with lzma_memusage()": the quantity that
+    a decoder compares with its hard limit before it returns LZMA_MEMLIMIT_ERROR has to be visible through its memconfig
+    function (directly, or through the member it was saved in).  Otherwise the application (and xz's "N MiB of memory is
+    required" message) is told an unrelated number, and raising the limit to it does not let decoding continue."""
+    ck.rule("C09-NEEDED", "the amount compared with the hard limit before LZMA_MEMLIMIT_ERROR is what memconfig reports")
+    rets = prog.enum("lzma_ret")
+    for (fn, file, mc) in NEEDED:
+        f = prog.fn(fn, file)
+        g = prog.fn(mc, file)
+        ck.saw_function(f)
+        ck.saw_function(g)
+        mtxt = " ".join(ex.show(e) for b, i, e in g.iter_elems())
+        found = []
+        for b in f.blocks.values():
+            if not (b.term and "cond" in b.term and len(b.succs) == 2):
+                continue
+            c = ex.strip(b.term["cond"])
+            if c.get("k") != "bin" or c["op"] not in (">", "<", ">=", "<="):
+                continue
+            sides = [ex.strip(c["l"]), ex.strip(c["r"])]
+            lim = [x for x in sides if x is not None and x.get("k") == "mem" and x["f"] in ("memlimit", "memlimit_stop")]
+            if not lim:
+                continue
+            X = [x for x in sides if x is not lim[0]][0]
+            # does one edge lead to `return LZMA_MEMLIMIT_ERROR` (possibly via `ret = ...`)?
+            reach = cfg.reachable(f, [y for y in b.succs if y is not None])
+            leads = any(bb.id in reach and "LZMA_MEMLIMIT_ERROR" in ex.show(ee) for bb, ii, ee in f.iter_elems()
+                        if ex.deref(ee).get("k") in ("ret", "asg"))
+            if leads:
+                found.append((b, c, X))
+        if not found:
+            raise AnalysisBroken("%s: comparison with the memory limit not found" % fn)
+        for (b, c, X) in found:
+            if X.get("k") == "mem":
+                name = X["f"]
+                ok = ("->" + name) in mtxt
+                how = "member %s" % name
+            elif X.get("k") == "var":
+                saved = [ex.show(l).split("->")[-1] for bb, ii, ee in f.iter_elems() for (l, r, op, nd) in ex.writes(ee)
+                         if r is not None and ex.strip(r).get("k") == "var" and ex.strip(r)["n"] == X["n"] and "->" in ex.show(l)]
+                ok = any(("->" + s_) in mtxt for s_ in saved)
+                name = X["n"]
+                how = "local %s saved in %s" % (X["n"], saved)
+            else:
+                raise AnalysisBroken("%s: `%s` compares the limit with an expression that is not a member or a local" % (fn, ex.show(c)))
+            ck.ob("C09-NEEDED", "%s:%s" % (fn, name), ok, common.where(f, c),
+                  "%s: `%s` -- %s is reported by %s()" % (fn, ex.show(c), how, mc) if ok else
+                  "%s() returns LZMA_MEMLIMIT_ERROR when `%s`, but %s() never reads %s: lzma_memusage() then reports what "
+                  "happens to be allocated instead of what is needed, so `raise the limit to lzma_memusage() and continue` "
+                  "cannot succeed and xz prints a wrong requirement" % (fn, ex.show(c), mc, how), key="NEEDED:%s:%s" % (fn, name))
+    ck.floor("C09-NEEDED", 4)
+
+
 def run(ck):
     ck.explanation = (
         "Must-pass (edge cut) rules on the resume-aware product graphs of the container decoders: every "
@@ -508,3 +665,5 @@ def run(ck):
     prog_xz = common.program(ck, ("xz",), files=("/coder.c",))
     check_xz(ck, prog_xz)
     check_terms(ck, prog, prog_xz)
+    check_clamp(ck, prog)
+    check_needed(ck, prog)
